@@ -7,8 +7,9 @@ Two runtime monitors over the real ``ppci.binutils.dbg.gdb.rsp`` code.
    framed by the real ``RspHandler.rsp_pack`` and by an independent reference
    framer written from the GDB RSP specification; the two must agree (modulo
    the letter case of the two checksum digits, which the specification leaves
-   open).  The wire bytes of both framings are cut in ALL 2^(n-1) ways into
-   chunks and fed to a fresh ``RspHandler`` through the transport's
+   open).  The wire bytes of the real framing are cut in ALL 2^(n-1) ways into
+   chunks (the reference framing, which differs at most in the case of the
+   checksum digits, on sampled chunkings) and fed to a fresh ``RspHandler`` through the transport's
    ``on_byte`` entry point (= ``RspHandler._process_byte``).  That entry point
    takes exactly one byte per call -- ``transport.TCP.recv`` reads one byte --
    so a chunk is delivered the way ``TCP.recv_thread`` delivers it: one
@@ -63,7 +64,8 @@ Narrowings (stated, not silent):
   shard (systematic).  The per-history watchdog (20 s) discards;
 * chunking is realised by the harness at the ``on_byte`` boundary (see 1.);
   the ``tcp`` shard additionally drives real chunk boundaries through
-  ``TCP.recv_thread``;
+  ``TCP.recv_thread`` (a transport that hands more than one byte to
+  ``on_byte`` is reported: the decoder silently drops such a chunk);
 * DESIGN 3.2 step 3 (unrestricted sweep + neutralise) is not implemented.
 """
 import os
@@ -79,8 +81,9 @@ ESCAPED = "$#}*"
 RULE = ("framing: ALL payloads of length <= 4 (thorough <= 5) over the alphabet {a $ # } * + - '} "
         "(payloads ending in an apostrophe are left out while finding decoder-apostrophe-hides-packet-end "
         "is open; for payloads containing $ # } * the received-content clause is off while "
-        "unpack-keeps-escapes is open) x {real rsp_pack wire, reference wire, checksum+1} x ALL "
-        "2^(n-1) chunkings of the n wire bytes, plus two more corruptions on sampled chunkings; "
+        "unpack-keeps-escapes is open) x {real rsp_pack wire, reference wire with checksum+1} x ALL "
+        "2^(n-1) chunkings of the n wire bytes, plus the reference wire (lower-case checksum) and two "
+        "more corruptions on 2+6 sampled chunkings; "
         "non-trivial = at least two chunks; distinct by construction. histories: seeded scripts "
         "(2-4 sender threads, 1-3 packets each in 1-2 phases, per transmission an answer from "
         "{+, -, late +, silence} with optional notification packets, quiescent stray + and "
@@ -139,7 +142,7 @@ def plan(tier, seed, avoid):
             for d in ALPHABET:
                 specs.append({"part": "frame", "lens": [5], "prefix": c + d})
     if tier == "quick":
-        nscripts, yseeds, nshards = 320, 3, 16
+        nscripts, yseeds, nshards = 256, 3, 16
     else:
         nscripts, yseeds, nshards = 500, 20, 50
     per = (nscripts + nshards - 1) // nshards
@@ -161,26 +164,26 @@ def floors(tier):
         "evaluations": 4000000 if q else 100000000,
         "observed.framing.payloads": 4000 if q else 30000,
         "observed.framing.sender_vs_reference": 4000 if q else 30000,
-        "observed.framing.good_delivered": 2000000 if q else 50000000,
+        "observed.framing.good_delivered": 1500000 if q else 40000000,
         "observed.framing.corrupt_nacked": 1500000 if q else 40000000,
         "observed.framing.tcp_cases": 100 if q else 1000,
-        "observed.history.checked": 700 if q else 8000,
-        "observed.history.interleavings": 600 if q else 6000,
-        "observed.history.scripts_with_several_orders": 200 if q else 400,
-        "observed.history.senders_overlapped": 600 if q else 7000,
-        "observed.history.yields_taken": 30000 if q else 400000,
-        "observed.history.notifications_good": 1500 if q else 15000,
-        "observed.history.notifications_corrupt": 700 if q else 7000,
-        "observed.history.mode.client": 80 if q else 1000,
+        "observed.history.checked": 550 if q else 8000,
+        "observed.history.interleavings": 450 if q else 6000,
+        "observed.history.scripts_with_several_orders": 160 if q else 400,
+        "observed.history.senders_overlapped": 450 if q else 7000,
+        "observed.history.yields_taken": 25000 if q else 400000,
+        "observed.history.notifications_good": 1200 if q else 15000,
+        "observed.history.notifications_corrupt": 600 if q else 7000,
+        "observed.history.mode.client": 60 if q else 1000,
         "observed.history.mode.tcp": 6 if q else 40,
     }
     if K_NACK not in opened:
         # the retransmission clause is only waived through the avoid switch of the open finding
-        f["observed.history.nacks_injected"] = 1000 if q else 30000
-        f["observed.history.retransmissions"] = 1000 if q else 30000
-        f["observed.history.budget_exhausted"] = 100 if q else 3000
+        f["observed.history.nacks_injected"] = 800 if q else 30000
+        f["observed.history.retransmissions"] = 800 if q else 30000
+        f["observed.history.budget_exhausted"] = 80 if q else 3000
     if K_STRAY not in opened:
-        f["observed.history.stray_plus_injected"] = 100 if q else 1500
+        f["observed.history.stray_plus_injected"] = 80 if q else 1500
     return f
 
 
@@ -379,7 +382,7 @@ def run_frame(spec):
         variants.append(("body", corrupt(ref, "body"), False))
         for name, wire_s, good in variants:
             wire = wire_s.encode("latin-1")
-            masks = allmasks if name in ("real", "ref", "cs") else some
+            masks = allmasks if name in ("real", "cs") else some
             if not good and ref_unframe(wire_s) is not None:
                 return {"inconclusive": ["corruption %s of %r is accepted by the reference" % (name, p)]}
             for mask in masks:
@@ -409,7 +412,7 @@ def run_frame(spec):
                          "expected": p if good else None})
                     break
             ob["variant"][name] = ob["variant"].get(name, 0) + 1
-        if len(samples) < 2 and any(c in ESCAPED for c in p) and len(p) >= 3:
+        if len(samples) < 1 and spec["prefix"] in ("", "}") and any(c in ESCAPED for c in p) and len(p) >= 3:
             samples.append({"payload": p, "wire": real, "chunkings": 1 << (n - 1)})
         if len(viol) >= 5:
             break
@@ -1316,7 +1319,8 @@ def run_hist(spec):
         if v and len(viol) < 4:
             viol.append({"summary": "history script %d yield seed %d (%s): %s" % (sidx, ys, script["mode"], v[0]),
                          "case": dict(case, all_findings=v[:10]), "replay_spec": rspec})
-        elif not v and len(samples) < 1 and st.get("notifications_good") and len(ev) < 80:
+        elif (not v and len(samples) < 1 and st.get("notifications_good") and len(ev) < 70
+              and (tcp or spec.get("lo") == 0)):
             samples.append({"script": script, "yield_seed": ys,
                             "event_order": ["%s %s %s" % (role(e["th"]), e["k"], e.get("pid") or e.get("data")
                                                           or e.get("payload") or e.get("uid")) for e in ev]})
